@@ -349,3 +349,376 @@ pub fn check_s3<O: Op>(op: &O, x: &[BigUint], seed: u64, max_outputs: usize, dep
     let nt = stats.repairs_found > 0;
     Ok((stats.clone(), Verdict::of(nt, "S3").with(op.name())))
 }
+
+// ---------------------------------------------------------------------------
+// S5 — coherent lookup-tuple substitution + linear repair
+//
+// Cells that a lookup ties together (a value and its spread form, a limb and its range tag)
+// cannot be faulted one at a time: the tuple leaves the table and the lookup rejects. Here the
+// whole tuple of a lookup row is replaced by *another row of the table* (same values in the
+// slots that are not advice cells), and the violated gate constraints that remain are repaired
+// by the affine search of S3. This reaches assignments in which a lookup-checked cell holds a
+// legal but wrong value — e.g. a limb that a dropped copy constraint should have pinned.
+// Verdicts are full verifications of replays, as everywhere.
+
+/// What the search needs from the circuit under test.
+pub trait Arena {
+    fn arena_name(&self) -> String;
+    /// Replays synthesis under the plan (public values read back): (accepted, public, prover).
+    fn replay(&self, plan: &HashMap<usize, Fault<F>>) -> (bool, Vec<F>, Option<MockProver<F>>);
+    fn judge(&self, public: &[F]) -> bool;
+    fn classify(&self, public: &[F]) -> Option<String>;
+}
+
+#[derive(Clone, Debug, Default)]
+pub struct S5Stats {
+    pub lookups: usize,
+    pub classes: usize,
+    pub tuples_tried: usize,
+    pub replays: usize,
+    pub repairs_found: usize,
+    pub accepted_correct: usize,
+    /// accepted replays whose public values are the honest ones (a witness freedom without effect)
+    pub accepted_same: usize,
+}
+
+fn advice_queries(e: &Expression<F>) -> Vec<(usize, i32)> {
+    let mut v: Vec<(usize, i32)> = e.evaluate(
+        &|_| vec![],
+        &|_| vec![],
+        &|_| vec![],
+        &|q| vec![(q.column_index(), q.rotation().0)],
+        &|_| vec![],
+        &|_| vec![],
+        &|a| a,
+        &|mut a, b| {
+            a.extend(b);
+            a
+        },
+        &|mut a, b| {
+            a.extend(b);
+            a
+        },
+        &|a, _| a,
+    );
+    v.sort();
+    v.dedup();
+    v
+}
+
+struct ArenaCtx<'a, A: Arena> {
+    arena: &'a A,
+    inst: &'a [F],
+    honest: &'a MockProver<F>,
+    tables: &'a Tables,
+    assign_cell: &'a HashMap<usize, (usize, usize)>,
+    n_assign: usize,
+    window: usize,
+    max_candidates: usize,
+    cell_assign: &'a HashMap<(usize, usize), usize>,
+    lookup_bound: &'a HashSet<usize>,
+    n_rows: i64,
+}
+
+fn search_arena<A: Arena>(cx: &ArenaCtx<A>, plan: HashMap<usize, Fault<F>>, anchor: usize, depth: usize, budget: &mut usize, stats: &mut S5Stats) -> Result<(), Failure> {
+    if *budget == 0 {
+        return Ok(());
+    }
+    *budget -= 1;
+    stats.replays += 1;
+    let (accepted, public, prover) = cx.arena.replay(&plan);
+    let trace = std::env::var("VP_S5_TRACE").map(|v| v == "2").unwrap_or(false);
+    if trace {
+        let mut ks: Vec<_> = plan.keys().collect();
+        ks.sort();
+        eprintln!("  S5 {} depth {depth} plan {ks:?} accepted {accepted} same-public {} prover {}", cx.arena.arena_name(), public == cx.inst, prover.is_some());
+    }
+    let Some(prover) = prover else { return Ok(()) };
+    if accepted {
+        if public == cx.inst {
+            stats.accepted_same += 1;
+            return Ok(());
+        }
+        if cx.arena.judge(&public) {
+            stats.accepted_correct += 1;
+            return Ok(());
+        }
+        let cls = cx.arena.classify(&public).unwrap_or_else(|| "unclassified".into());
+        let mut pl: Vec<_> = plan.iter().map(|(k, v)| format!("{k}:{v:?}")).collect();
+        pl.sort();
+        return Err(Failure::new(
+            format!("{}:unsound:S5:{cls}", cx.arena.arena_name()),
+            format!("MockProver accepts an assignment found by lookup-tuple substitution + linear repair whose public values contradict the reference: plan (assignment index -> value) {pl:?}; exposed {public:?}; honest instance {:?}", cx.inst),
+        ));
+    }
+    if depth == 0 {
+        return Ok(());
+    }
+    let res = residuals(cx.honest, &prover, cx.tables);
+    let Some(&target) = res.first() else { return Ok(()) };
+    // a broken copy constraint is a dead end here (pairs of equal cells are engine S3's domain)
+    if trace {
+        eprintln!("  S5 target {target:?} of {} residuals", res.len());
+    }
+    if matches!(target, ResId::Copy(..)) {
+        return Ok(());
+    }
+    let rho0 = residual(&prover, cx.tables, target);
+    let lo = anchor.saturating_sub(cx.window);
+    let hi = (anchor + cx.window).min(cx.n_assign.saturating_sub(1));
+    // first the cells the violated gate reads (those no lookup binds before the others),
+    // then the assignments around the substituted tuple
+    let mut cands: Vec<usize> = vec![];
+    if let ResId::Gate(g, pi, row) = target {
+        let poly = &prover.cs().gates()[g].polynomials()[pi];
+        for (c, rot) in advice_queries(poly) {
+            let rr = (row as i64 + rot as i64).rem_euclid(cx.n_rows) as usize;
+            if let Some(i) = cx.cell_assign.get(&(c, rr)) {
+                if !plan.contains_key(i) && !cands.contains(i) {
+                    cands.push(*i);
+                }
+            }
+        }
+        cands.sort_by_key(|i| (cx.lookup_bound.contains(i), (*i as i64 - anchor as i64).abs()));
+    }
+    let mut near: Vec<usize> = (lo..=hi).filter(|i| !plan.contains_key(i) && !cands.contains(i)).collect();
+    near.sort_by_key(|i| (*i as i64 - anchor as i64).abs());
+    if cands.is_empty() {
+        cands.extend(near);
+    }
+    if trace {
+        eprintln!("  S5 candidates {cands:?} anchor {anchor}");
+    }
+    let mut tried = 0;
+    for i in cands {
+        if *budget < 3 || tried >= cx.max_candidates {
+            break;
+        }
+        let Some(&(c, r)) = cx.assign_cell.get(&i) else { continue };
+        let v0 = cell(&prover, c, r);
+        tried += 1;
+        let mut probe = |delta: F, budget: &mut usize, stats: &mut S5Stats| -> Option<F> {
+            *budget = budget.saturating_sub(1);
+            stats.replays += 1;
+            let mut p = plan.clone();
+            p.insert(i, Fault::Set(v0 + delta));
+            cx.arena.replay(&p).2.map(|pr| residual(&pr, cx.tables, target))
+        };
+        let Some(rho1) = probe(F::ONE, budget, stats) else { continue };
+        let a = rho1 - rho0;
+        if a == F::ZERO {
+            continue;
+        }
+        let Some(rho2) = probe(F::from(2), budget, stats) else { continue };
+        if rho2 - rho1 != a {
+            continue;
+        }
+        stats.repairs_found += 1;
+        let mut p2 = plan.clone();
+        p2.insert(i, Fault::Set(v0 - rho0 * a.invert().unwrap()));
+        search_arena(cx, p2, anchor, depth - 1, budget, stats)?;
+    }
+    Ok(())
+}
+
+/// Runs S5 on one honest run. `log`: the assignment records of the honest run; `honest`: its
+/// prover; `inst`: the honest public values.
+pub fn check_lookup_tuples<A: Arena + Sync>(arena: &A, log: &[AssignRecord], honest: &MockProver<F>, inst: &[F], seed: u64, max_classes: usize, budget_per_tuple: usize) -> Result<(S5Stats, Verdict), Failure> {
+    let mut stats = S5Stats::default();
+    let mut cell_to_assign: HashMap<(usize, usize), usize> = HashMap::new();
+    let mut assign_cell = HashMap::new();
+    let mut rec_of: HashMap<usize, &AssignRecord> = HashMap::new();
+    for rec in log {
+        if let Some(r) = rec.abs_row {
+            cell_to_assign.insert((rec.column, r), rec.index);
+            assign_cell.insert(rec.index, (rec.column, r));
+            rec_of.insert(rec.index, rec);
+        }
+    }
+    let perm = honest.permutation();
+    let tables = Tables { cols: perm.columns().to_vec(), mapping: perm.mapping().map(|c| c.collect::<Vec<_>>()).collect() };
+    let usable = honest.usable_rows().clone();
+    let n = honest.advice().first().map(|c| c.len()).unwrap_or(1) as i64;
+    let key = |f: &F| f_to_big(f);
+    // (lookup, column, offset in region) -> candidate (row, advice slots with their cells)
+    type Cand = (usize, usize, Vec<(usize, usize)>); // (lookup index, row, [(slot, assign index)])
+    let mut classes: std::collections::BTreeMap<(usize, u64, usize, usize), Vec<Cand>> = Default::default();
+    // shape of the region an assignment belongs to (sequence of (column, offset) assigned in it)
+    let mut regions: std::collections::BTreeMap<usize, Vec<(usize, usize)>> = Default::default();
+    for rec in log {
+        if let Some(a) = rec.abs_row {
+            if a >= rec.offset {
+                regions.entry(a - rec.offset).or_default().push((rec.column, rec.offset));
+            }
+        }
+    }
+    let shape_of: HashMap<usize, u64> = regions
+        .into_iter()
+        // in assignment order and with repetitions: a region that assigns a cell twice (a copied
+        // constant overwritten by a computed value) differs from one that does not
+        .map(|(start, sh)| (start, vpcore::digest(&format!("{sh:?}"))))
+        .collect();
+    let mut lookup_bound: HashSet<usize> = HashSet::new();
+    let mut table_index: Vec<HashMap<Vec<BigUint>, Vec<Vec<F>>>> = vec![];
+    let mut slots_of: Vec<Vec<Option<(usize, i32)>>> = vec![];
+    for (li, lk) in honest.cs().lookups().iter().enumerate() {
+        let slots: Vec<Option<(usize, i32)>> = lk.input_expressions().iter().map(|e| { let q = advice_queries(e); if q.len() == 1 { Some(q[0]) } else { None } }).collect();
+        let mut idx: HashMap<Vec<BigUint>, Vec<Vec<F>>> = HashMap::new();
+        if slots.iter().any(|s| s.is_some()) {
+            stats.lookups += 1;
+            let mut seen = HashSet::new();
+            for r in usable.clone() {
+                let t: Vec<F> = lk.table_expressions().iter().map(|e| eval(honest, e, r)).collect();
+                let full: Vec<BigUint> = t.iter().map(key).collect();
+                if !seen.insert(full) {
+                    continue;
+                }
+                let k: Vec<BigUint> = t.iter().zip(&slots).filter(|(_, s)| s.is_none()).map(|(v, _)| key(v)).collect();
+                idx.entry(k).or_default().push(t);
+            }
+            for r in usable.clone() {
+                let mut cells = vec![];
+                let mut ok = true;
+                for (j, s) in slots.iter().enumerate() {
+                    if let Some((c, rot)) = s {
+                        let rr = (r as i64 + *rot as i64).rem_euclid(n) as usize;
+                        match cell_to_assign.get(&(*c, rr)) {
+                            Some(i) => {
+                                // the slot carries the cell's value on this row (selector on)
+                                if eval(honest, &lk.input_expressions()[j], r) != cell(honest, *c, rr) {
+                                    ok = false;
+                                }
+                                cells.push((j, *i));
+                            }
+                            None => ok = false,
+                        }
+                    }
+                }
+                if ok && !cells.is_empty() {
+                    let rec = rec_of[&cells[0].1];
+                    let shape = rec.abs_row.and_then(|a| a.checked_sub(rec.offset)).and_then(|s| shape_of.get(&s)).copied().unwrap_or(0);
+                    lookup_bound.extend(cells.iter().map(|(_, i)| *i));
+                    classes.entry((li, shape, rec.column, rec.offset)).or_default().push((li, r, cells));
+                }
+            }
+        }
+        table_index.push(idx);
+        slots_of.push(slots);
+    }
+    stats.classes = classes.len();
+    let mut rng = SplitMix(seed);
+    // per class: one occurrence drawn at random, and up to four more that are only used when
+    // a substitution in the previous one was accepted without any effect on the public values
+    let mut reps: Vec<Vec<Cand>> = classes
+        .values()
+        .map(|v| {
+            let mut picked: Vec<usize> = vec![];
+            for _ in 0..5.min(v.len()) {
+                let i = rng.below(v.len() as u64) as usize;
+                if !picked.contains(&i) {
+                    picked.push(i);
+                }
+            }
+            picked.into_iter().map(|i| v[i].clone()).collect()
+        })
+        .collect();
+    for i in (1..reps.len()).rev() {
+        reps.swap(i, rng.below(i as u64 + 1) as usize);
+    }
+    reps.truncate(max_classes);
+    let cx = ArenaCtx { arena, inst, honest, tables: &tables, assign_cell: &assign_cell, n_assign: log.len(), window: 10, max_candidates: 10, cell_assign: &cell_to_assign, lookup_bound: &lookup_bound, n_rows: n };
+    // the representatives are independent of each other: spread them over worker threads
+    let threads: usize = std::env::var("VP_S5_THREADS").ok().and_then(|s| s.parse().ok()).unwrap_or(6).max(1);
+    let next = std::sync::atomic::AtomicUsize::new(0);
+    let stop = std::sync::atomic::AtomicBool::new(false);
+    let results: Vec<(S5Stats, Option<(usize, Failure)>)> = std::thread::scope(|sc| {
+        let handles: Vec<_> = (0..threads)
+            .map(|_| {
+                sc.spawn(|| {
+                    let mut st = S5Stats::default();
+                    let mut fail: Option<(usize, Failure)> = None;
+                    loop {
+                        let ri = next.fetch_add(1, std::sync::atomic::Ordering::SeqCst);
+                        if ri >= reps.len() || stop.load(std::sync::atomic::Ordering::SeqCst) {
+                            break;
+                        }
+                        let mut escalate = true;
+                        for (li, r, cells) in &reps[ri] {
+                        if !escalate || fail.is_some() {
+                            break;
+                        }
+                        let same_before = st.accepted_same;
+                        escalate = false;
+                        let (li, r) = (*li, *r);
+                        let lk = &honest.cs().lookups()[li];
+                        let u: Vec<F> = lk.input_expressions().iter().map(|e| eval(honest, e, r)).collect();
+                        let k: Vec<BigUint> = u.iter().zip(&slots_of[li]).filter(|(_, s)| s.is_none()).map(|(v, _)| key(v)).collect();
+                        let Some(rows) = table_index[li].get(&k) else { continue };
+                        let a0 = cells[0].0;
+                        // alternatives: table rows whose first advice slot is close to the present value
+                        let v0 = f_to_big(&u[a0]);
+                        let mut alts: Vec<&Vec<F>> = rows.iter().filter(|t| **t != u).collect();
+                        alts.sort_by_key(|t| {
+                            let d = f_to_big(&t[a0]);
+                            if d > v0 { &d - &v0 } else { &v0 - &d + BigUint::from(1u32 << 20) }
+                        });
+                        // the nearest row and one drawn pseudo-randomly
+                        let mut rr = SplitMix(seed ^ (ri as u64).wrapping_mul(0x9e37_79b9_7f4a_7c15));
+                        let pick = if alts.len() > 1 { 1 + rr.below(alts.len() as u64 - 1) as usize } else { 0 };
+                        let mut chosen: Vec<&Vec<F>> = alts.iter().enumerate().filter(|(i, _)| *i == 0 || *i == pick).map(|(_, t)| *t).collect();
+                        let mut extra = 3;
+                        let mut ci = 0;
+                        while ci < chosen.len() {
+                            let t = chosen[ci];
+                            ci += 1;
+                            let before = st.accepted_correct;
+                            st.tuples_tried += 1;
+                            let plan: HashMap<usize, Fault<F>> = cells.iter().map(|(j, i)| (*i, Fault::Set(t[*j]))).collect();
+                            let mut budget = budget_per_tuple;
+                            if let Err(f) = search_arena(&cx, plan, cells[0].1, 2, &mut budget, &mut st) {
+                                fail = Some((ri, f));
+                                stop.store(true, std::sync::atomic::Ordering::SeqCst);
+                                break;
+                            }
+                            // the substitution was accepted without changing the public values'
+                            // meaning: the cells are free here, try other rows of the table
+                            if st.accepted_correct > before && extra > 0 && alts.len() > 2 {
+                                extra -= 1;
+                                chosen.push(alts[1 + rr.below(alts.len() as u64 - 1) as usize]);
+                            }
+                        }
+                        escalate = st.accepted_same > same_before;
+                        if std::env::var("VP_S5_TRACE").is_ok() {
+                            let rec = rec_of[&cells[0].1];
+                            eprintln!("S5 {} rep {ri}: lookup {li} row {r} col {} off {} v0={v0} alts={} -> tuples {} replays {} repairs {} acc-correct {}", arena.arena_name(), rec.column, rec.offset, alts.len(), st.tuples_tried, st.replays, st.repairs_found, st.accepted_correct);
+                        }
+                        }
+                        if fail.is_some() {
+                            break;
+                        }
+                    }
+                    (st, fail)
+                })
+            })
+            .collect();
+        handles.into_iter().map(|h| h.join().expect("S5 worker")).collect()
+    });
+    let mut first: Option<(usize, Failure)> = None;
+    for (st, f) in results {
+        stats.tuples_tried += st.tuples_tried;
+        stats.replays += st.replays;
+        stats.repairs_found += st.repairs_found;
+        stats.accepted_correct += st.accepted_correct;
+        stats.accepted_same += st.accepted_same;
+        if let Some((ri, f)) = f {
+            if first.as_ref().map(|(r0, _)| ri < *r0).unwrap_or(true) {
+                first = Some((ri, f));
+            }
+        }
+    }
+    if let Some((_, f)) = first {
+        return Err(f);
+    }
+    let v = Verdict::of(stats.tuples_tried > 0, "lookup-tuples").with(format!("classes:{}", match stats.classes { 0 => "0", 1..=19 => "1-19", 20..=99 => "20-99", _ => "100+" })).with(format!("repairs:{}", if stats.repairs_found > 0 { ">0" } else { "0" }));
+    Ok((stats, v))
+}
